@@ -188,6 +188,13 @@ def gen_twin_group(r, gid):
     cextw = " ".join("cext=i:%s:%d" % (n, v) for n, v in zip(names, wrong))
     out.append(("ext_rdef", "g%d_ext_rdef %s src=%s %s %s" % (gid, cextw, hx(ext_cond), " ".join("rext=i:%s:%d" % (n, v) for n, v in zip(names, vals)), b)))
     out.append(("ext_sdef", "g%d_ext_sdef %s src=%s %s %s" % (gid, cextw, hx(ext_cond), " ".join("sext=i:%s:%d" % (n, v) for n, v in zip(names, vals)), b)))
+    # an external combined with a constant by an operator that leaves its value unchanged: the compile-time value of such an
+    # expression is UNKNOWN (not "the constant's bits"), so no place/quantifier decision may be derived from it
+    if all(0 <= v < 65536 for v in vals):
+        wraps = ["({0} & 0xFFFF)", "(0xFFFF & {0})", "({0} | 0)", "({0} ^ 0)", "({0} + 0)", "({0} - 0)", "({0} * 1)", "({0} \\ 1)", "({0} % 1000000)",
+                 "({0} >> 0)", "({0} << 0)", "(~(~{0}))", "(-(-{0}))", "(({0} & 0xFF00) | ({0} & 0xFF))"]
+        opc = rule(tmpl.format(*[r.choice(wraps).format(n) for n in names]))
+        out.append(("ext_op", "g%d_ext_op %s src=%s %s" % (gid, cext, hx(opc), b)))
     out.append(("fast", "g%d_fast src=%s fast=1 %s" % (gid, hx(rule(base_cond)), b)))
     out.append(("fast_ext", "g%d_fast_ext %s src=%s fast=1 %s" % (gid, cext, hx(ext_cond), b)))
     # atom quality tables: every 4-byte window of the planted bytes gets a random quality
